@@ -108,6 +108,19 @@ class ImageWriter:
     def export_image(self, image: LTImage) -> str:
         """Save an LTImage to disk"""
         (width, height) = image.srcsize
+        for what, value in (
+            ("Width", width),
+            ("Height", height),
+            ("BitsPerComponent", image.bits),
+        ):
+            # they size the file and appear in its name: anything but a plain
+            # positive number of reasonable size cannot be exported
+            if (
+                not isinstance(value, int)
+                or isinstance(value, bool)
+                or not 0 < value < 2**31
+            ):
+                raise PDFValueError(f"Invalid image /{what}: {value!r}")
 
         filters = image.stream.get_filters()
 
